@@ -12,7 +12,7 @@ from .. import gen as G
 from ..run import Outcome
 
 ID = "C15"
-BUDGET = {"quick": 3000, "thorough": 40000}
+BUDGET = {"quick": 20000, "thorough": 200000}
 RULE = (
     "Hypothesis: preference intervals over 1-7 candidates (supports as exact rationals spanning "
     "1e-6..1e3, exact zeros), cohesion / proportion vectors in the open interval and at its ends, "
